@@ -628,6 +628,9 @@ def rule_halt_unconditional(ctx, rule='R08.13'):
 
 
 def run(ctx):
+    from . import protocol
+    protocol.rule_collision_step_size(ctx, 'R08.14')     # collisions are looked for along the step just taken
+    protocol.rule_last_done_unconditional(ctx, 'R08.15') # the recorded step size does not depend on the synchronisation options
     rule_halt_unconditional(ctx)
     from . import edges
     edges.rule_last_done_is_last(ctx, 'R08.11')      # the step size integrate() restores is the user's
